@@ -5,6 +5,7 @@ package main
 import (
 	"fmt"
 	"math/rand"
+	"os"
 	"strconv"
 	"strings"
 	"time"
@@ -97,7 +98,7 @@ func c10Parse(pat string) (toks []c10Tok, ok bool) {
 
 func c10TokMatch(t c10Tok, c byte) bool {
 	if c < 'a' || c > 'z' {
-		return false // a byte that is not a letter is not a nucleotide: it matches nothing
+		return t.neg // a byte that is not a letter is no nucleotide: only "anything but ..." accepts it
 	}
 	return t.set[c-'a']
 }
@@ -577,6 +578,14 @@ func (c10) Exec(c string) (string, []Fail) {
 	}
 	stat("op:" + f[0])
 	res := guardT(10*time.Second, func() string {
+		if os.Getenv("C10DEBUG") != "" {
+			defer func() {
+				if r := recover(); r != nil {
+					fmt.Fprintf(os.Stderr, "panic: %v\n", r)
+					panic(r)
+				}
+			}()
+		}
 		switch {
 		case (f[0] == "pat" || f[0] == "rcpat") && len(f) == 4:
 			pb, ok := unhx(f[1])
@@ -825,7 +834,8 @@ func (c10) Exec(c string) (string, []Fail) {
 					if (e == 0 || !indel) && c10Hits(mir) != c10Hits(raw) {
 						fail("find.revcomp"+sigx, "complemented pattern on s: %s; pattern on rc(s), mirrored: %s", c10Hits(raw), c10Hits(mir))
 					}
-					if indel && e > 0 && (len(mir) == 0) != (len(raw) == 0) {
+					hasOblig := strings.IndexByte(pat, '#') >= 0 // '#' with indels: the automaton gates ins/del by the obligatory mask, not strand-symmetric, only tied by correspondence
+					if indel && e > 0 && !hasOblig && (len(mir) == 0) != (len(raw) == 0) {
 						fail("find.revcomp-indel"+sigx, "complemented pattern on s: %s; pattern on rc(s), mirrored: %s", c10Hits(raw), c10Hits(mir))
 					}
 					stat("revcomp-symmetry")
@@ -964,7 +974,11 @@ func (c10) Exec(c string) (string, []Fail) {
 	if res == "panic" {
 		switch f[0] {
 		case "all", "best":
-			fail(f[0]+".panic", "panic")
+			if len(f) == 9 && f[6] == "1" {
+				fail(f[0]+".panic.circular", "panic on a circular sequence")
+			} else {
+				fail(f[0]+".panic", "panic")
+			}
 		case "locate":
 			p, _ := unhx(f[1])
 			s, _ := unhx(f[2])
